@@ -62,6 +62,23 @@ def gen_box(rng, kind):
     elif kind == "constant":
         c = float(rng.randint(-3, 3))
         left, right = [c] * n, [c + rng.choice([0.0, 2.0])] * n
+    elif kind == "thin":              # relative width 1e-9 .. 1e-5: not degenerate, but np.isclose would say so
+        base = rng.uniform(1, 50)
+        eps = 10 ** rng.uniform(-9, -5)
+        left = [base * (1 + i * eps * rng.choice([0.0, 1.0, 1.0])) for i in range(n)]
+        left = list(np.maximum.accumulate(left))
+        right = [x * (1 + eps) for x in left]
+        right = list(np.maximum.accumulate(right))
+    elif kind == "tiny":              # tiny absolute magnitudes
+        sc = rng.choice([1e-9, 2.0 ** -60, 1.380649e-23, 1e-20])
+        left = sorted(sc * rng.randint(1, 40) for _ in range(n))
+        right = [x + sc * rng.choice([0, 1, 3]) for x in left]
+        right = list(np.maximum.accumulate(right))
+    elif kind == "extreme":           # magnitudes above 1e15 next to values below machine epsilon
+        sc = rng.choice([1e18, 1e15, 2.0 ** 70])
+        left = sorted([sc * rng.randint(-20, 20) for _ in range(n - 20)] + [rng.choice([1e-20, -1e-20, 2.0 ** -60]) for _ in range(20)])
+        right = [x + sc * rng.choice([0, 0, 2]) for x in left]
+        right = list(np.maximum.accumulate(right))
     else:                             # "mixed": runs and strictly increasing stretches
         left, x = [], float(rng.randint(-5, 5))
         for _ in range(n):
@@ -75,7 +92,22 @@ def gen_box(rng, kind):
     return [float(x) for x in left], [float(x) for x in right]
 
 
-KINDS = ["continuous", "shifted", "steps", "integer", "degenerate", "constant", "mixed"]
+KINDS = ["continuous", "shifted", "steps", "integer", "degenerate", "constant", "mixed", "thin", "steps", "integer", "tiny", "extreme"]
+
+
+def build_box(Staircase, rng, left, right):
+    """the same bounds handed over in different representations (float arrays, python lists, tuples, int-dtype arrays)"""
+    ints = all(float(x).is_integer() and abs(x) < 2 ** 40 for x in left + right)
+    mode = rng.choice(["float-array", "list", "tuple-ish", "int-array", "int-list"] if ints else ["float-array", "list", "float-array"])
+    if mode == "float-array":
+        return mode, Staircase(left=np.array(left), right=np.array(right))
+    if mode == "list":
+        return mode, Staircase(left=list(left), right=list(right))
+    if mode == "tuple-ish":
+        return mode, Staircase(left=np.array(left, dtype=np.float32).astype(float), right=np.array(right))
+    if mode == "int-array":
+        return mode, Staircase(left=np.array([int(x) for x in left]), right=np.array([int(x) for x in right]))
+    return mode, Staircase(left=[int(x) for x in left], right=[int(x) for x in right])
 
 
 # ---- exact nearest on a strictly increasing grid -----------------------------------
@@ -117,25 +149,35 @@ def ivl_out(r):
     return ("ok", [float(x) for x in lo.ravel()], [float(x) for x in hi.ravel()], "array")
 
 
-def run_impl(P, op, arg):
+def run_impl(P, op, arg, keep=None):
+    """`keep`: a list to which the REAL result object is appended (kept alive and re-read later)"""
+    r = _run_impl(P, op, arg, keep)
+    return r
+
+
+def _run_impl(P, op, arg, keep):
+    def K(obj):
+        if keep is not None:
+            keep.append(obj)
+        return obj
     try:
         if op == "cut":
-            return ivl_out(P.alpha_cut(arg))
+            return ivl_out(K(P.alpha_cut(arg)))
         if op == "cuts":
-            return ivl_out(P.alpha_cut(np.array(arg)))
+            return ivl_out(K(P.alpha_cut(np.array(arg))))
         if op == "cdf":
-            return ivl_out(P.cdf(arg))
+            return ivl_out(K(P.cdf(arg)))
         if op == "cdfs":
-            return ivl_out(P.cdf(np.array(arg)))
+            return ivl_out(K(P.cdf(np.array(arg))))
         if op == "disc":
-            return ivl_out(P.discretise(arg))
+            return ivl_out(K(P.discretise(arg)))
         if op == "outer":
-            return ivl_out(P.outer_discretisation(arg))
+            return ivl_out(K(P.outer_discretisation(arg)))
         if op == "cond":
-            r = P.condensation(arg)
+            r = K(P.condensation(arg))
             return ("ok", [float(x) for x in r.left], [float(x) for x in r.right], "pbox")
         if op == "pi":
-            return ivl_out(P.get_PI(arg[0], style=arg[1]))
+            return ivl_out(K(P.get_PI(arg[0], style=arg[1])))
         raise ValueError(op)
     except BaseException as e:  # noqa
         return ("err", err_kind(e))
@@ -218,6 +260,8 @@ def gen_queries(rng, Gf, left, right, tier_scale):
           rng.random(), rng.random(), rng.uniform(0, 0.001), rng.uniform(0.999, 1)]
     for a in rng.sample(lv, 4):
         Q.append(("cut", a))
+    Q.append(("cut", rng.choice([0, 1, np.int64(0), np.int64(1), True])))          # levels given as integers
+    Q.append(("cuts", rng.choice([[0, 1], [1, 0, 1], [0, 0.5, 1]])))
     if xmids:
         Q.append(("cut", rng.choice(xmids)))
     Q.append(("cuts", [rng.choice(lv + Gf[:3] + mids[:3] + xmids) for _ in range(rng.randint(1, 12))]))
@@ -231,6 +275,10 @@ def gen_queries(rng, Gf, left, right, tier_scale):
         xs.append(rng.uniform(left[0], right[-1]) if right[-1] > left[0] else left[0])
     for x in rng.sample(xs, 5):
         Q.append(("cdf", float(x)))
+    xi = [x for x in xs if float(x).is_integer() and abs(x) < 2 ** 40]
+    if xi:
+        Q.append(("cdf", rng.choice([int(rng.choice(xi)), np.int64(int(rng.choice(xi)))])))
+        Q.append(("cdfs", [int(x) for x in xi[:4]]))
     Q.append(("cdfs", [float(rng.choice(xs)) for _ in range(rng.randint(1, 10))]))
     # discretisations
     Q.append(("disc", rng.choice([None, N])))
@@ -240,7 +288,7 @@ def gen_queries(rng, Gf, left, right, tier_scale):
     for m in {rng.choice([2, 3, 4, 5, 10, 200]), rng.randint(2, 200)}:
         Q.append(("cond", m))
     # prediction intervals: pairs of coverage levels, both styles
-    al = sorted(rng.sample([0.0, 1.0, 0.5, 0.9, 0.95, 0.99, 0.1, 0.25, 0.75, rng.random(), rng.random(), rng.randrange(1, 1024) / 1024], 3))
+    al = sorted(rng.sample([0, 1, 0.5, 0.9, 0.95, 0.99, 0.999, 0.1, 0.25, 0.75, rng.random(), rng.random(), rng.randrange(1, 1024) / 1024], 3))
     for a in al:
         Q.append(("pi", (a, "narrowest")))
         Q.append(("pi", (a, "widest")))
